@@ -194,20 +194,21 @@ func (s *Service) Message(ctx context.Context, duty *synccommitteemessenger.Duty
 
 	s.UpdateSyncCommitteeDataRecord(duty.Slot(), *beaconBlockRoot, duty.ContributionIndices())
 
-	// Create a fixed size array so that we can map each signature to the corresponding account.
-	accounts := make([]e2wtypes.Account, len(validatorIndices))
-	countActive := 0
-	for i := range validatorIndices {
-		account := duty.Account(validatorIndices[i])
+	// Only the accounts we hold are passed to the signer, as a nil account fails the whole batch;
+	// signingIndices[i] is the validator index of accounts[i], to map each signature back.
+	accounts := make([]e2wtypes.Account, 0, len(validatorIndices))
+	signingIndices := make([]phase0.ValidatorIndex, 0, len(validatorIndices))
+	for _, validatorIndex := range validatorIndices {
+		account := duty.Account(validatorIndex)
 		if account == nil {
 			s.log.Debug().Msg("Account nil; likely exited validator still in sync committee")
 			continue
 		}
-		countActive++
-		accounts[i] = account
+		accounts = append(accounts, account)
+		signingIndices = append(signingIndices, validatorIndex)
 	}
 	// Return early if we have no active accounts.
-	if countActive == 0 {
+	if len(accounts) == 0 {
 		return msgs, nil
 	}
 
@@ -217,29 +218,26 @@ func (s *Service) Message(ctx context.Context, duty *synccommitteemessenger.Duty
 		return nil, errors.Wrap(err, "failed to sign sync committee messages")
 	}
 
-	for i, account := range accounts {
-		if account == nil {
-			continue
-		}
+	for i := range accounts {
 		signature := sigs[i]
 		if signature.IsZero() {
 			s.log.Error().
 				Uint64("slot", uint64(duty.Slot())).
-				Uint64("validator_index", uint64(validatorIndices[i])).
+				Uint64("validator_index", uint64(signingIndices[i])).
 				Msg("Failed to sign sync committee message; received zero signature")
 			// Carry on with the other validators; their messages are independent of this one.
 			continue
 		}
 		s.log.Trace().
 			Uint64("slot", uint64(duty.Slot())).
-			Uint64("validator_index", uint64(validatorIndices[i])).
+			Uint64("validator_index", uint64(signingIndices[i])).
 			Stringer("signature", signature).
 			Msg("Signed sync committee message")
 
 		msg := &altair.SyncCommitteeMessage{
 			Slot:            duty.Slot(),
 			BeaconBlockRoot: *beaconBlockRoot,
-			ValidatorIndex:  validatorIndices[i],
+			ValidatorIndex:  signingIndices[i],
 			Signature:       signature,
 		}
 		msgs = append(msgs, msg)
